@@ -55,9 +55,14 @@ pub fn run(args: &Args, r: &mut Report) {
         }
         // a backend that cannot write an unrelated entry must not keep the counter / last contact from being stored
         if rng.chance(1, 6) {
-            let k = if rng.bool() { "server_dictated_poll_interval".to_string() } else { case.setup.apps[0].id.clone() };
+            let k = case.setup.apps[rng.usize(case.setup.apps.len())].id.clone();
             case.shape.push(format!("failkey:{}", if k.starts_with('{') { "app" } else { &k }));
             case.fault.fail_keys.push(k);
+        }
+        // the device may stay down for a while before it is restarted
+        if rng.chance(1, 3) {
+            case.restart_gap_ns = *rng.pick(&[60i128, 3_600, 7_200, 86_400, 200_000]) * 1_000_000_000;
+            case.shape.push("downtime".into());
         }
         // a metrics sink that refuses every report (the reporter's contract allows an error)
         if rng.chance(1, 8) {
@@ -125,6 +130,9 @@ fn judge(r: &mut Report, args: &Args, i: u64, case: &FlowCase, run: &CaseRun, cr
     }
     let mut m = Mon::default();
     mon_state(&run.flow, &case.setup, Proj::Book, &mut m);
+    // "these values and the poll interval": the interval shown to the policy (also by a rebuilt machine, also
+    // after a long downtime) is the model's / the committed one
+    mon_state(&run.flow, &case.setup, Proj::Poll, &mut m);
     mon_c08_mixture(&run.flow, &mut m);
     // the restarted machine must have asked its policy (otherwise nothing was judged after the crash)
     if case.setup.start_mode {
